@@ -43,6 +43,13 @@ CHECKS["C17"] = merged(dyncheck.run, primcheck.run)
 CHECKS["C12"] = merged(lifecheck.run, dyncheck.run)
 CHECKS["C13"] = merged(lifecheck.run, dyncheck.run)
 
+import sesscheck
+
+CHECKS["SESS19"] = lambda pid, tier: sesscheck.run("C19", tier)   # Session.tla alone (development aid)
+CHECKS["SESS07"] = lambda pid, tier: sesscheck.run("C07", tier)
+CHECKS["C19"] = merged(lifecheck.run, sesscheck.run)
+CHECKS["C07"] = merged(dyncheck.run, sesscheck.run)
+
 import extracheck
 
 CHECKS["EXTRA"] = extracheck.run   # behaviours beyond the listed properties (not in MANIFEST)
